@@ -548,3 +548,48 @@ Theorem c12_source_schedule_independent : forall (pc : pconfig) (s1 s2 : list ta
   (forall k, value (psh (prun src_program pc s1)) k = value (psh (prun src_program pc s2)) k).
 Proof. exact src_schedule_independent. Qed.
 Print Assumptions c12_source_schedule_independent.
+
+(* ---- INSTRUCTION-level interleavings of the program of the source (C12/ProgFine.v): [pmrun] executes one
+   instruction of one task per step, in any order — between `lock().await` and the test of the slot, between
+   `symbols_requested += 1` and the supplier call, between the store and the end of get any other task may run
+   (multi-threaded executors).  Finer than C12/FineModel.v's five atomic blocks; the counters are not covered at this
+   granularity. ---- *)
+From RM Require Import C12.ProgFine.
+
+Theorem c12_source_instr_at_most_once : forall (pc : pconfig) (ms : list task) (k : key),
+  psupplier_calls (pmrun src_program pc ms) k <= 1.
+Proof. exact src_pm_at_most_once. Qed.
+Print Assumptions c12_source_instr_at_most_once.
+
+Theorem c12_source_instr_same_outcome : forall (pc : pconfig) (ms : list task) (t : task) (i : nat) (k : key) (o : outcome),
+  ptask_result (pmrun src_program pc ms) t i = Some (k, o) -> o = outc (pbase pc) k.
+Proof. exact src_pm_same_outcome. Qed.
+Print Assumptions c12_source_instr_same_outcome.
+
+(* two tasks are never between the acquisition of a slot's lock and the end of get for the same slot *)
+Theorem c12_source_instr_mutual_exclusion : forall (pc : pconfig) (ms : list task) (k : key) (t u : task),
+  lock (psh (pmrun src_program pc ms)) k = Some t ->
+  tkey (ppcs (pmrun src_program pc ms) u) = Some k -> holds (tcls (ppcs (pmrun src_program pc ms) u)) = true -> u = t.
+Proof. exact src_pm_mutual_exclusion. Qed.
+Print Assumptions c12_source_instr_mutual_exclusion.
+
+(* a remembered value is the supplier's single answer for that slot *)
+Theorem c12_source_instr_value : forall (pc : pconfig) (ms : list task) (k : key) (o : outcome),
+  value (psh (pmrun src_program pc ms)) k = Some o ->
+  o = outc (pbase pc) k /\ psupplier_calls (pmrun src_program pc ms) k = 1.
+Proof. exact src_pm_value. Qed.
+Print Assumptions c12_source_instr_value.
+
+Theorem c12_source_instr_never_stuck : forall (pc : pconfig) (ms : list task) (t : task),
+  snd (fst (ppcs (pmrun src_program pc ms) t)) <> [IAbort].
+Proof. exact src_pm_never_stuck. Qed.
+Print Assumptions c12_source_instr_never_stuck.
+
+Example c12_nonvacuous_instr :
+  let s1 := pmrun src_program two_fill [0; 0; 0; 0; 0; 1; 1] in
+  req (psh s1) = 1 /\ calls (psh s1) = [] /\ lock (psh s1) 0 = Some 0 /\ waiting (snd (ppcs s1 1)) = true /\
+  tcls (ppcs s1 0) = CPre /\
+  let s2 := pmrun src_program two_fill ([0; 0; 0; 0; 0; 1; 1] ++ repeat 0 14 ++ repeat 1 8) in
+  ptask_done s2 0 = true /\ ptask_done s2 1 = true /\ calls (psh s2) = [0] /\
+  results (psh s2) 0 = [(0, OLoad)] /\ results (psh s2) 1 = [(0, OLoad)] /\ req (psh s2) = 1 /\ proc (psh s2) = 1.
+Proof. exact pm_nonvacuous. Qed.
